@@ -107,7 +107,13 @@ func (c *Ctx) Mine(i int64) bool {
 	if c.OnlyCase >= 0 {
 		return i == c.OnlyCase && c.Worker == 0
 	}
-	return int(i%int64(c.NWorkers)) == c.Worker
+	// cases are dealt to workers by a hash of the index, so that every worker sees every kind
+	// of case whatever period the monitor uses to pick kinds
+	h := uint64(i)*0x9e3779b97f4a7c15 + 0x7f4a7c15
+	h ^= h >> 29
+	h *= 0xbf58476d1ce4e5b9
+	h ^= h >> 32
+	return int(h%uint64(c.NWorkers)) == c.Worker
 }
 
 // Begin marks the start of case i (for crash attribution) and returns its generator.
